@@ -351,7 +351,7 @@ def explain(c, o):
     for nm, x in (("strict", S), ("strict-off", L), ("no-chart", N)):
         if x["cls"] == "accepted" and not x["reports_ok"]:
             why.append("%s run: journal accepted but a report fails: %s" % (nm, x["report_errs"]))
-    return why or ["specification oracle obs_ok_b is false"]
+    return why
 
 
 def case_public(c):
@@ -411,7 +411,7 @@ def main(run):
                "runs": {"strict": brief(o[0]), "strict_off": brief(o[1]), "strict_off_nothing_declared": brief(o[2])},
                "replay_hint": "write accounts.toml/commodities.toml/tags.toml from 'charts', run with kernel.strict = true/false; ./check C12 --replay <this file>"}
         if not (bits & 2):
-            run.violation("; ".join(explain(c, o)), rep)
+            run.violation("; ".join(explain(c, o)) or "specification oracle Charts_spec.obs_ok_b is false on the observed runs", rep)
         elif not (bits & 1):
             run.cov["disagreements_checked"] += 1
             rep["correspondence"] = "C12_corr.c12_case (agreement bits strict/lax/no-chart = %d%d%d)" % (
@@ -434,8 +434,12 @@ def main(run):
 def replay(run, path):
     j = json.load(open(path))
     rp = j.get("replay", j)
-    c = dict(rp.get("charts", {}))
-    c["txns"] = rp.get("txns")
+    if "accounts" in rp and "txns" in rp:        # a corpus case
+        c = dict(rp)
+    else:
+        c = dict(rp.get("charts", {}))
+        c["txns"] = rp.get("txns")
+        c.setdefault("accounts", []); c.setdefault("comms", []); c.setdefault("tags", [])
     if not c.get("txns"):
         print(json.dumps(j, indent=1, ensure_ascii=False)[:6000])
         return 0
@@ -445,5 +449,5 @@ def replay(run, path):
     res = harness_run(sessions(c))
     o = [observe(c, x) for x in res]
     print(json.dumps({"charts": case_public(c), "journal": J.print_journal(c["txns"]),
-                      "runs(strict,lax,no-chart)": [brief(x) for x in o], "verdict": explain(c, o)}, indent=1, ensure_ascii=False)[:8000])
+                      "runs(strict,lax,no-chart)": [brief(x) for x in o], "verdict": explain(c, o) or ["no clause of the specification is contradicted by these runs"]}, indent=1, ensure_ascii=False)[:8000])
     return 0
